@@ -48,7 +48,7 @@ class C16(core.Check):
     required_buckets = {b: 3 for b in ['line>6-bytes', 'line>16-bytes', 'gap-without-org', 'muted-region', 'zero-length-line',
                                        'included-file', 'predefined-data', 'width:4', 'width:8', 'width:12', 'width:16',
                                        'width:24', 'width:32', 'every-line-length-1..40', 'fmt:listing', 'fmt:hex', 'fmt:intel_hex', 'fmt:minhex',
-                                       'zero-length-at-gap-edge', 'gap:align', 'gap:memzone', 'gap:muted', 'gap:zone-org']}
+                                       'image-fill:nonzero', 'zero-length-at-gap-edge', 'gap:align', 'gap:memzone', 'gap:muted', 'gap:zone-org']}
     required_buckets['every-line-length-1..40'] = 2
     required_buckets['several-statements-per-line'] = 3
 
@@ -75,12 +75,19 @@ class C16(core.Check):
             if l.get('muted'):
                 tags.add('muted-region')
         runs = []
+        # every third program is assembled with a non-zero gap-fill value: the formats describe assembled bytes only, and the
+        # image must agree with them on every assembled byte (a zero byte included)
+        self._n = getattr(self, '_n', 0) + 1
+        fillv = [0, 0, 255, 0, 0, 0xA5][self._n % 6]
+        if fillv:
+            argv_extra = list(argv_extra) + ['-f', str(fillv)]
+            tags.add('image-fill:nonzero')
         for f in FORMATS:
             runs.append({'files': fl, 'argv': ['compile', '-c', fn, main_name, '-o', 'out.bin', '-p', '-t', f,
                                                '--pretty-print-output', 'pp.txt'] + argv_extra,
                          'probes': ['steps'], 'step_limit': 4_000_000})
         return {'runs': runs, 'meta': {'M': {str(k): v for k, v in M.items()}, 'stm': stm, 'origin': origin,
-                                       'image': (layout.image(M, 0, None, 0) or b'').hex()},
+                                       'image': (layout.image(M, 0, None, fillv) or b'').hex()},
                 'tags': sorted(tags)}
 
     def length_cases(self):
